@@ -8,7 +8,7 @@ for rf in sorted(glob.glob('/tmp/evalout/*/result.json')):
         continue
     name = r['name']
     pid, ab = name.split('_')
-    src = f'/tmp/mut/{pid}/mutant_{ab}' if ab in 'ab' else (f'/tmp/mut2/{pid}/mutant_{chr(ord(ab)-2)}' if ab in 'cd' else (f'/tmp/mut3/{pid}/mutant_{chr(ord(ab)-4)}' if ab in 'ef' else (f'/tmp/mut4/{pid}/mutant_{chr(ord(ab)-6)}' if ab in 'gh' else (f'/tmp/mut5/{pid}/mutant_{chr(ord(ab)-8)}' if ab in 'ij' else f'/tmp/mut6/{pid}/mutant_{chr(ord(ab)-10)}'))))
+    src = f'/tmp/mut/{pid}/mutant_{ab}' if ab in 'ab' else (f'/tmp/mut2/{pid}/mutant_{chr(ord(ab)-2)}' if ab in 'cd' else (f'/tmp/mut3/{pid}/mutant_{chr(ord(ab)-4)}' if ab in 'ef' else (f'/tmp/mut4/{pid}/mutant_{chr(ord(ab)-6)}' if ab in 'gh' else (f'/tmp/mut5/{pid}/mutant_{chr(ord(ab)-8)}' if ab in 'ij' else (f'/tmp/mut6/{pid}/mutant_{chr(ord(ab)-10)}' if ab in 'kl' else f'/tmp/mut7/{pid}/mutant_{chr(ord(ab)-12)}')))))
     if not os.path.isdir(src):
         continue
     valid = r['apply'] == 0 and r['suite_with_mutant'] == 0 and r['demo_clean'] == 0 and r['demo_with_mutant'] != 0
@@ -27,7 +27,7 @@ for rf in sorted(glob.glob('/tmp/evalout/*/result.json')):
     det = sorted(k for k, v in r['checks'].items() if v['rc'] == 1)
     ran = sorted(r['checks'].keys())
     meta = {
-        'id': name, 'breaks_property': pid, 'origin': 'independent sub-agent given only the property text and a scratch worktree' + ('' if ab in 'ab' else (' (round 2: also told the two round-1 ideas for this property, to force different mechanisms)' if ab in 'cd' else (' (round 3: told the four earlier ideas for this property and asked for code paths none of them touch)' if ab in 'ef' else (' (round 4: told the six earlier ideas and pointed at unusual API usage, size constants, error paths, rare type shapes and sub-package interactions)' if ab in 'gh' else (' (round 5: told the eight earlier ideas and asked for what a systematic checker built from the property text would plausibly not vary)' if ab in 'ij' else ' (round 6: told the ten earlier ideas and pointed at what oracles normalise away, rare schema and Go type features, extreme arguments, second use of objects, cleanup paths)'))))),
+        'id': name, 'breaks_property': pid, 'origin': 'independent sub-agent given only the property text and a scratch worktree' + ('' if ab in 'ab' else (' (round 2: also told the two round-1 ideas for this property, to force different mechanisms)' if ab in 'cd' else (' (round 3: told the four earlier ideas for this property and asked for code paths none of them touch)' if ab in 'ef' else (' (round 4: told the six earlier ideas and pointed at unusual API usage, size constants, error paths, rare type shapes and sub-package interactions)' if ab in 'gh' else (' (round 5: told the eight earlier ideas and asked for what a systematic checker built from the property text would plausibly not vary)' if ab in 'ij' else (' (round 6: told the ten earlier ideas and pointed at what oracles normalise away, rare schema and Go type features, extreme arguments, second use of objects, cleanup paths)' if ab in 'kl' else ' (round 7: told the twelve earlier ideas and pointed at interactions between features, quantities crossing internal thresholds, silently taken defaults, things computed once and reused, conversions, and ordering between two writes that belong together)')))))),
         'needs_to_manifest': needs,
         'validation': {'patch_applies_on_/repo_HEAD': True, 'existing_suite_passes_with_change': True,
                        'demo_test': r['demo_test'], 'demo_package_dir': r['demo_pkg'], 'demo_passes_without_change': True, 'demo_fails_with_change': True,
